@@ -376,6 +376,10 @@ def run(ctx) -> None:
     for n in source.walk_own(gcc):
         if isinstance(n, ast.Assign) and len(n.targets) == 1 and isinstance(n.targets[0], ast.Name) and isinstance(n.value, ast.Call):
             la = last_attr(n.value)
+            # the default platform's layer may be read through the platform-parametrised accessor with the default label
+            argsrc = [source.src(a) for a in n.value.args] + [source.src(k.value) for k in n.value.keywords]
+            if any(a.endswith("LabelDefault") for a in argsrc):
+                la = {"get_platform_stage_blueprint": "get_default_stage_blueprint", "get_platform_blueprint": "get_default_global_blueprint"}.get(la, la)
             if la in OPT_LAYERS:
                 name_src[n.targets[0].id] = la
     fold_loops = [a for c in source.calls_in(gcc) if last_attr(c) == "override_object" and len(c.args) == 2
